@@ -35,5 +35,8 @@ type Values struct {
 
 // Call the function with the arguments provided.
 func (f *Values) Call(s *slip.Scope, args slip.List, depth int) (result slip.Object) {
+	if len(args) == 1 {
+		return args[0] // a single value is just that value
+	}
 	return slip.Values(args)
 }
